@@ -535,3 +535,17 @@ Definition core_of_tree (file : N) (links : list (N * N * N)) (t : tree) : res (
 (** as an option (None = "noncore"; never out of fuel: BridgeProofs.core_of_tree_total) *)
 Definition core_of_tree_opt (file : N) (links : list (N * N * N)) (t : tree) : option (list stmt) :=
   match core_of_tree file links t with Ok l => Some l | _ => None end.
+
+(** the shape the grammar gives to Identifier nodes (grammar/value.rs fn identifier: start_node(Identifier);
+    eat_if(Id); finish_node): empty, or an Id token followed by trivia.  [ident_shape t] is the executable check that
+    every Identifier node of [t] is empty or starts with an Id token; model/Pipeline.v evaluates it on every tree
+    (a checked hypothesis of BridgeProofs.core_idents_are_id_tokens) *)
+Fixpoint ident_shape (t : tree) : bool :=
+  match t with
+  | Tok k _ => negb (sk_eqb k S_Identifier)          (* Identifier is a node kind, never a token kind *)
+  | Node k cs =>
+      (if sk_eqb k S_Identifier
+       then match cs with [] => true | Tok k' _ :: _ => sk_eqb k' S_Id | Node _ _ :: _ => false end
+       else true)
+      && (fix go (l : list tree) : bool := match l with [] => true | c :: r => ident_shape c && go r end) cs
+  end.
